@@ -199,7 +199,7 @@ class Gen:
             return L([self.plain(depth - 1) for _ in range(self.r.randint(1, 2))])
         if r < 0.65:
             return N
-        ks = self.r.sample(KEYS, self.r.randint(1, 3))
+        ks = self.r.sample(KEYS, self.r.randint(0, 3))
         return M([(k, self.plain(depth - 1)) for k in ks])
 
     # ---- source shapes (used only to aim references and patch paths)
@@ -228,7 +228,16 @@ class Gen:
         if y[0] == 'L' and k.startswith('@'):
             n = len(y[1])
             try:
-                i = n - 1 if k == '@last' else int(k[1:])
+                if k == '@last':
+                    i = n - 1
+                elif k == '@before last':
+                    i = n - 1
+                elif k.startswith('@before '):
+                    i = int(k[8:])
+                elif k.startswith('@after '):
+                    i = int(k[7:]) + 1
+                else:
+                    i = int(k[1:])
             except ValueError:
                 return None
             return y[1][i] if 0 <= i < n else None
@@ -264,11 +273,23 @@ class Gen:
                 k = self.r.choice(cand)
             elif y[0] == 'L' and y[1]:
                 i = self.r.randrange(len(y[1]))
-                k = '@last' if (i == len(y[1]) - 1 and self.r.random() < 0.3) else '@%d' % i
-                if k == '@last':
-                    self.f('ref:@last')
+                k = '@%d' % i
+                r = self.r.random()
+                spell = k
+                if r < 0.45:
+                    # read-only resolution: @before N -> N, @after N -> N+1, leading zeros, @last
+                    forms = ['@0%d' % i, '@before %d' % i]
+                    if i > 0:
+                        forms.append('@after %d' % (i - 1))
+                    if i == len(y[1]) - 1:
+                        forms += ['@last', '@last', '@before last']
+                    spell = self.r.choice(forms)
+                    self.f('ref:index-form:' + ''.join(c for c in spell if not c.isdigit()).strip())
                 else:
                     self.f('ref:@N')
+                keys.append(spell)
+                y = self.src_child(did, y, k)
+                continue
             else:
                 break
             keys.append(k)
@@ -745,6 +766,58 @@ def targeted_sets(seed):
     out.append(('index-shift:append-empty-list', {'base': base3,
                'alpha': M([('t', M([('__include', S('base:/')), ('__patch', M([('l/@before last/x/+', L([]))]))])),
                            ('u', M([('__include', S('base:/l'))]))])}))
+    # 11. references that address a list element through every index spelling while the element itself carries
+    #     directives; the reference stands before or after the list, is an include or a patch reference, local or
+    #     cross-file (a .custom document has no automatic patch, so its root does not force the list to be compiled first)
+    src = M([('speed', S('fast')), ('gear', S('3'))])
+    def lst():
+        return L([M([('__include', S('/src')), ('level', S('1'))]),
+                  M([('settings', M([('__include', S('/src')), ('level', S('2'))])), ('tag', w())]),
+                  M([('__patch', M([('speed', S('slow'))])), ('__include', S('/src')), ('level', S('3'))])])
+    spell = {0: ['@0', '@00', '@before 0'],
+             1: ['@1', '@01', '@before 1', '@after 0'],
+             2: ['@2', '@02', '@last', '@after 1', '@before last', '@before 2']}
+    for i, forms in spell.items():
+        for f in forms:
+            for where in ('before', 'after'):
+                ref = [('copy', M([('__include', S('/lst/' + f))])),
+                       ('sub', M([('__include', S('lst/' + f + '/settings' if i == 1 else 'lst/' + f)), ('own', w())])),
+                       ('pat', M([('k', w()), ('__patch', S(':/lst/' + f))]))]
+                body = [('src', src)] + (ref + [('lst', lst())] if where == 'before' else [('lst', lst())] + ref)
+                out.append(('index-spelling:%s:%s:local' % (f, where), {'alpha': M(body)}))
+        f = forms[-1]
+        out.append(('index-spelling:%s:cross-file' % f,
+                    {'beta': M([('copy', M([('__include', S('gamma.custom:/lst/' + f))])),
+                                ('pat', M([('k', w()), ('__patch', S('gamma.custom:lst/' + f + '?'))]))]),
+                     'gamma.custom': M([('src', src), ('lst', lst())])}))
+    out.append(('index-spelling:@next:null', {'alpha': M([('src', src), ('copy', M([('__include', S('/lst/@next?')), ('k', w())])),
+                                                            ('lst', lst())])}))
+    # 12. empty containers inside an included node, written through by patches and by sibling merges,
+    #     with other observers of the source (second includer, include of the whole document)
+    base4 = M([('u', M([('items', L([])), ('opts', M([])), ('name', w()), ('deep', M([('e', M([])), ('l', L([]))]))])),
+               ('v', L([]))])
+    writers = {
+        'patch-next': [('__patch', M([('items/@next', w())]))],
+        'patch-index': [('__patch', M([('items/@0', w()), ('deep/l/@1', w())]))],
+        'patch-key': [('__patch', M([('opts/color', w()), ('deep/e/k', w())]))],
+        'patch-list': [('__patch', L([M([('items/@next', w())]), M([('opts/a', w())]), M([('items/@next', w())])]))],
+        'sibling-merge': [('opts', M([('color', w())])), ('deep', M([('e', M([('k', w())]))]))],
+        'sibling-index': [('items', M([('@next', w())]))],
+        'append': [('__patch', M([('items/+', L([w()])), ('opts/+', M([('z', w())]))]))],
+    }
+    for name, extra in writers.items():
+        docs = {'base': base4,
+                'alpha': M([('one', M([('__include', S('base:/u'))] + extra)),
+                            ('two', M([('__include', S('base:/u'))])),
+                            ('all', M([('__include', S('base:/'))])),
+                            ('three', M([('__include', S('base:/u/deep'))]))])}
+        out.append(('empty-container:' + name, docs))
+    out.append(('empty-container:root-list', {'base': base4,
+               'alpha': M([('one', M([('__include', S('base:/')), ('__patch', M([('v/@next', w()), ('u/items/@next', w())]))])),
+                           ('two', M([('__include', S('base:/v'))])), ('three', M([('__include', S('base:/u/items'))]))])}))
+    out.append(('empty-container:local', {'alpha': M([('src', M([('items', L([])), ('opts', M([]))])),
+               ('one', M([('__include', S('/src')), ('__patch', M([('items/@next', w()), ('opts/k', w())]))])),
+               ('two', M([('__include', S('/src'))]))])}))
     return out
 
 
